@@ -1480,6 +1480,13 @@ func (e *govEnv) hostileWithdraw() []Tx {
 			amt := new(big.Int).Add(big.NewInt(1), bigRand(r, have))
 			return []Tx{e.txWithdraw("PROPOSAL_WITHDRAW_FUNDS/negative", p.ID, f.Addr, amt.Neg(amt), victim.Addr, f)}
 		case 3:
+			if r.Intn(2) == 0 {
+				// the refund asked for in another registered currency (contributions are OLT)
+				cur := []string{"ETH", "TTC", "BTC", "VT"}[r.Intn(4)]
+				amt := new(big.Int).Add(big.NewInt(1), bigRand(r, have))
+				msg := &govact.WithdrawFunds{ProposalID: governance.ProposalID(p.ID), Funder: f.Addr, WithdrawValue: govAmt(cur, amt), Beneficiary: f.Addr}
+				return []Tx{{Bytes: core.BuildTx(msg, core.DefaultFee(), memo(e.c), f), Kind: "PROPOSAL_WITHDRAW_FUNDS/other-currency"}}
+			}
 			return []Tx{e.txWithdraw("PROPOSAL_WITHDRAW_FUNDS/zero", p.ID, f.Addr, new(big.Int), f.Addr, f)}
 		case 4:
 			return []Tx{e.txWithdraw("PROPOSAL_WITHDRAW_FUNDS/double", p.ID, f.Addr, have, f.Addr, f),
